@@ -497,7 +497,7 @@ func decRelabelBreaks(n ast.Node) {
 // canonIf: N7 / N8.  An if / else-if chain (no init statements) with at least two conditions is written as a tagless
 // switch; a tagless switch with one case and a default as if / else; `if a != b {X} else {Y}` and `if !c {X} else {Y}`
 // as `if a == b {Y} else {X}` / `if c {Y} else {X}`.
-func (nz *decNormaliser) canonIf(body *ast.BlockStmt) {
+func (nz *decNormaliser) canonIf(body *ast.BlockStmt, chains, swaps bool) {
 	var conv func(s ast.Stmt) ast.Stmt
 	conv = func(s ast.Stmt) ast.Stmt {
 		switch x := s.(type) {
@@ -529,7 +529,7 @@ func (nz *decNormaliser) canonIf(body *ast.BlockStmt) {
 			if !ok {
 				return s
 			}
-			if len(arms) >= 2 {
+			if len(arms) >= 2 && chains {
 				sw := &ast.SwitchStmt{Body: &ast.BlockStmt{}}
 				for _, a := range arms {
 					decRelabelBreaks(a.body)
@@ -541,7 +541,7 @@ func (nz *decNormaliser) canonIf(body *ast.BlockStmt) {
 				}
 				return sw
 			}
-			if els != nil {
+			if els != nil && swaps && len(arms) == 1 {
 				if b, isBin := x.Cond.(*ast.BinaryExpr); isBin && b.Op == token.NEQ {
 					return &ast.IfStmt{Cond: &ast.BinaryExpr{X: b.X, Op: token.EQL, Y: b.Y}, Body: els, Else: x.Body}
 				}
@@ -554,7 +554,7 @@ func (nz *decNormaliser) canonIf(body *ast.BlockStmt) {
 				}
 			}
 		case *ast.SwitchStmt:
-			if x.Tag == nil && x.Init == nil && len(x.Body.List) == 2 {
+			if chains && x.Tag == nil && x.Init == nil && len(x.Body.List) == 2 {
 				c0, _ := x.Body.List[0].(*ast.CaseClause)
 				c1, _ := x.Body.List[1].(*ast.CaseClause)
 				if c0 != nil && c1 != nil && len(c0.List) == 1 && c1.List == nil {
@@ -572,6 +572,51 @@ func (nz *decNormaliser) canonIf(body *ast.BlockStmt) {
 	})
 }
 
+// decTerminates: the statement list always leaves (return, continue, break, goto, panic).
+func decTerminates(l []ast.Stmt) bool {
+	if len(l) == 0 {
+		return false
+	}
+	switch x := l[len(l)-1].(type) {
+	case *ast.ReturnStmt:
+		return true
+	case *ast.BranchStmt:
+		return x.Tok != token.FALLTHROUGH
+	case *ast.ExprStmt:
+		if c, ok := x.X.(*ast.CallExpr); ok {
+			if id, ok := c.Fun.(*ast.Ident); ok && id.Name == "panic" {
+				return true
+			}
+		}
+	}
+	return false
+}
+
+// dropElse: N9.  `if c { …; return } else { B }` is written `if c { …; return }; B` (guard clause form).
+func (nz *decNormaliser) dropElse(body *ast.BlockStmt) bool {
+	changed := false
+	decRewriteLists(body, func(l []ast.Stmt) []ast.Stmt {
+		var out []ast.Stmt
+		for _, s := range l {
+			if is, ok := s.(*ast.IfStmt); ok && is.Else != nil && decTerminates(is.Body.List) {
+				els := is.Else
+				is.Else = nil
+				out = append(out, is)
+				if blk, ok := els.(*ast.BlockStmt); ok {
+					out = append(out, blk.List...)
+				} else {
+					out = append(out, els)
+				}
+				changed = true
+				continue
+			}
+			out = append(out, s)
+		}
+		return out
+	})
+	return changed
+}
+
 // normalise rewrites fd in place.
 func (nz *decNormaliser) normalise(fd *ast.FuncDecl) {
 	if fd == nil || fd.Body == nil {
@@ -585,6 +630,20 @@ func (nz *decNormaliser) normalise(fd *ast.FuncDecl) {
 			break
 		}
 	}
-	nz.canonIf(fd.Body)
+	nz.canonIf(fd.Body, true, false)
+	for i := 0; i < 4 && nz.dropElse(fd.Body); i++ {
+	}
+	nz.canonIf(fd.Body, false, true)
+	// N10: nothing follows a statement that always leaves
+	decRewriteLists(fd.Body, func(l []ast.Stmt) []ast.Stmt {
+		for i := range l {
+			if decTerminates(l[:i+1]) {
+				if _, isLabeled := l[i].(*ast.LabeledStmt); !isLabeled {
+					return l[:i+1]
+				}
+			}
+		}
+		return l
+	})
 	decStripParens(fd.Body)
 }
